@@ -1,4 +1,5 @@
 import HexProofs.Writes.PropsLib
+import HexProofs.Writes.PresenceLateTfEx
 import HexProofs.Writes.PresenceLate
 /-
 C13 – Indicators sharing candles do not interfere with one another (every float carrier `F`).
@@ -22,9 +23,12 @@ Proved here, from the writes-only theorem of the engine (`HexProofs/Writes/Engin
       Proof: an invariant says the default manager's candles are – up to the other members' entries – resumable over
       the stream for `a`'s row-major spec whether or not `a` is registered; the closing `calculate()` then gives the
       batch result, which depends on the stream alone (C01).
-Stated, not proved (`presence_FULL`): (d) for a late-added member WITH its own timeframe and under Heikin-Ashi.  The
-first formulation of that statement (`presence_FULL_v1`) is refuted (`presence_FULL_v1_false`): it did not tie the
-operations aimed at `a` itself, which the property does not quantify over.
+  (e) `presence_late_tf_covered` / `presence_late_ha_covered` (end of this file): (d) for a late-added member WITH its own
+      timeframe (Hexital cfg `{}`, Heikin-Ashi, fill flag) and under Heikin-Ashi without own timeframe, on well-formed streams.
+Both general formulations I wrote down are refuted – `presence_FULL_v1_false` (it did not tie the operations aimed at `a`
+itself, which the property does not quantify over) and `presence_FULL_false` (no well-formedness condition on the candles) –
+mis-statements of mine, not defects; what is left open: a late-added member with its own timeframe on a Hexital that has a
+timeframe or lifespan of its own (there the result legitimately depends on when it was added).
 -/
 namespace Hex.C13
 open Hex
@@ -233,7 +237,14 @@ theorem presence_late_covered (tfs : Option Int) (htfs : ∀ t, tfs = some t →
   Hex.presence_late_covered tfs htfs fill tf₁ tf₂ init ms₁ ms₂ a k name round hk ha hatf N₁ N₂ ops₁ ops₂ H₁ H₂
     hms₁ hms₂ hok₁ hok₂ hops₁ hops₂ hsame hraw hr₁ hr₂ hreg₁ hreg₂
 
-/-- **General statement (not proved).**  `presence_late` for ANY member – with its own timeframe as well – and
+/-- **General statement – REFUTED as written** (`presence_FULL_false`, end of this file): it puts no condition on the CANDLES, and a
+collapsing manager loses an unstamped first candle on construction and on every append, so WHEN `a` was added shows (witness:
+three unstamped candles, `SMA_2_T2` in the constructor vs. added after one append – replayed on the library: `[None, 14.0]` vs
+`[None, 12.5, 14.0]`); a dependence on degenerate input, not interference by another member.  On WELL-FORMED streams (stamped,
+sorted, pristine: `RawTfHA`) the pieces are proved: `presence_late_covered` (no own timeframe; any Hexital timeframe / fill),
+`presence_late_ha_covered` (the same under Heikin-Ashi), `presence_late_tf_covered` (a WITH its own timeframe, added at any point,
+Hexital cfg `{}` / `{ha}` / with the fill flag) – two-manager invariant `TfInv`, `LateLink` ("handing the default manager's candles
+over gives the stream back").  Original doc: `presence_late` for ANY member – with its own timeframe as well – and
 under Heikin-Ashi, i.e. what (c) and (d) leave open: a member WITH a timeframe (or under a Heikin-Ashi Hexital)
 that is added late.  Excluded on purpose, because there the readings depend on WHEN `a` was added and not on the
 other members: a lifespan (`late_add_lifespan_differs`), and a Hexital-level timeframe together with a different
@@ -363,5 +374,118 @@ example :
   · decide +kernel
 
 end Examples
+
+/-- **`presence_FULL` is FALSE as stated** (it does not ask the candles to be stamped): plain Hexital, no other member at
+all, the single member `SMA_2_T2` (timeframe `T2`), four candles without timestamps – handed to the constructor in
+world 1, added by `add_indicator` after the append in world 2 (a collapsing manager loses an unstamped first candle
+on construction and on every append).  Replayed on the library: `[None, 14.0]` against `[None, 12.5, 14.0]`. -/
+theorem presence_FULL_false : ¬ presence_FULL := Hex.presence_full_false
+
+/-- **(e) `a` WITH its own timeframe added later – PROVED** for any pair of manager specs linked by `LateLink`
+(Hexital-level spec `M` without timeframe, member spec `M'` = `M` with `a`'s timeframe; handing the default manager's
+candles over gives the stream back). -/
+theorem presence_late_tf (M M' : MgrSpec F) (secs : Option Int) (Ok : List (Candle F) → Prop)
+    (L : LateLink M M' secs Ok) (tf₁ tf₂ : Option String) (init : List (Candle F)) (ms₁ ms₂ : List (Member F))
+    (a : Member F) (N₁ N₂ : List String) (ops₁ ops₂ : List (TwinOp F)) (H₁ H₂ : Hexital F) (T : TreeSpec a.tree)
+    (key : String) (hatf : a.tfName = some key) (hsecs : a.tfSecs = secs) (hkey : key ≠ defaultKey)
+    (htf₁ : tf₁ ≠ some key) (htf₂ : tf₂ ≠ some key)
+    (hms₁ : ∀ m, m ∈ Hexital.dedupe ms₁ → m = a ∨ (m.tree.name ≠ a.tree.name ∧ ∀ k, k ∈ m.tree.allNames → k ∈ N₁))
+    (hms₂ : ∀ m, m ∈ Hexital.dedupe ms₂ → m = a ∨ (m.tree.name ≠ a.tree.name ∧ ∀ k, k ∈ m.tree.allNames → k ∈ N₂))
+    (hok₁ : TreeOK N₁ a.tree) (hok₂ : TreeOK N₂ a.tree)
+    (hops₁ : ∀ op, op ∈ ops₁ → op.LateOK N₁ a) (hops₂ : ∀ op, op ∈ ops₂ → op.LateOK N₂ a)
+    (hshOps : ∀ op, op ∈ ops₁ ++ ops₂ → op.ShareOK a)
+    (hshMs : ∀ m, m ∈ ms₁ ++ ms₂ → m.tfName = a.tfName → m.tfSecs = a.tfSecs)
+    (hsame : (TwinOp.chunks ops₁).flatten = (TwinOp.chunks ops₂).flatten)
+    (hs : Ok (init ++ (TwinOp.chunks ops₁).flatten))
+    (hr₁ : runHexital M.cfg tf₁ init ms₁ (ops₁ ++ [.calculate none]) = .ok H₁)
+    (hr₂ : runHexital M.cfg tf₂ init ms₂ (ops₂ ++ [.calculate none]) = .ok H₂)
+    (hreg₁ : ∃ hi, dlookup a.tree.name H₁.indicators = some hi)
+    (hreg₂ : ∃ hi, dlookup a.tree.name H₂.indicators = some hi) :
+    (∀ name, (splitDot name).headD "" = a.tree.name → readOK N₁ name = true → readOK N₂ name = true →
+        H₁.readingAsList name = H₂.readingAsList name) ∧
+    (∃ hi₁ m₁ hi₂ m₂, dlookup a.tree.name H₁.indicators = some hi₁ ∧ dlookup hi₁.mgrKey H₁.managers = some m₁ ∧
+        dlookup a.tree.name H₂.indicators = some hi₂ ∧ dlookup hi₂.mgrKey H₂.managers = some m₂ ∧
+        hi₁.tree = a.tree ∧ hi₂.tree = a.tree ∧
+        m₁.candles.map Candle.core = m₂.candles.map Candle.core ∧
+        ∀ k, k ∈ a.tree.allNames → storedUnder k m₁.candles = storedUnder k m₂.candles) :=
+  Hex.presence_late_tf M M' secs Ok L tf₁ tf₂ init ms₁ ms₂ a N₁ N₂ ops₁ ops₂ H₁ H₂ T key hatf hsecs hkey htf₁ htf₂
+    hms₁ hms₂ hok₁ hok₂ hops₁ hops₂ hshOps hshMs hsame hs hr₁ hr₂ hreg₁ hreg₂
+
+/-- … for EVERY shipped class, Hexital configuration `{ fill, ha }` – plain or Heikin-Ashi, no Hexital-level
+timeframe, no lifespan –, member `a` with its own timeframe of `t` seconds, pristine stamped candles (`RawTfHA`) -/
+theorem presence_late_tf_covered (ha fill : Bool) (t : Int) (ht : 0 < t)
+    (tf₁ tf₂ : Option String) (init : List (Candle F)) (ms₁ ms₂ : List (Member F))
+    (a : Member F) (k : Kind F) (name : String) (round : Nat) (hk : CoveredTreeX name k)
+    (hatree : a.tree = mkTop k name round) (key : String) (hatf : a.tfName = some key) (hsecs : a.tfSecs = some t)
+    (hkey : key ≠ defaultKey) (htf₁ : tf₁ ≠ some key) (htf₂ : tf₂ ≠ some key)
+    (N₁ N₂ : List String) (ops₁ ops₂ : List (TwinOp F)) (H₁ H₂ : Hexital F)
+    (hms₁ : ∀ m, m ∈ Hexital.dedupe ms₁ → m = a ∨ (m.tree.name ≠ a.tree.name ∧ ∀ k, k ∈ m.tree.allNames → k ∈ N₁))
+    (hms₂ : ∀ m, m ∈ Hexital.dedupe ms₂ → m = a ∨ (m.tree.name ≠ a.tree.name ∧ ∀ k, k ∈ m.tree.allNames → k ∈ N₂))
+    (hok₁ : TreeOK N₁ a.tree) (hok₂ : TreeOK N₂ a.tree)
+    (hops₁ : ∀ op, op ∈ ops₁ → op.LateOK N₁ a) (hops₂ : ∀ op, op ∈ ops₂ → op.LateOK N₂ a)
+    (hshOps : ∀ op, op ∈ ops₁ ++ ops₂ → op.ShareOK a)
+    (hshMs : ∀ m, m ∈ ms₁ ++ ms₂ → m.tfName = a.tfName → m.tfSecs = a.tfSecs)
+    (hsame : (TwinOp.chunks ops₁).flatten = (TwinOp.chunks ops₂).flatten)
+    (hraw : RawTfHA (init ++ (TwinOp.chunks ops₁).flatten))
+    (hr₁ : runHexital { fill := fill, ha := ha } tf₁ init ms₁ (ops₁ ++ [.calculate none]) = .ok H₁)
+    (hr₂ : runHexital { fill := fill, ha := ha } tf₂ init ms₂ (ops₂ ++ [.calculate none]) = .ok H₂)
+    (hreg₁ : ∃ hi, dlookup a.tree.name H₁.indicators = some hi)
+    (hreg₂ : ∃ hi, dlookup a.tree.name H₂.indicators = some hi) :
+    ∀ nm, (splitDot nm).headD "" = a.tree.name → readOK N₁ nm = true → readOK N₂ nm = true →
+      H₁.readingAsList nm = H₂.readingAsList nm :=
+  (Hex.presence_late_tf_covered ha fill t ht tf₁ tf₂ init ms₁ ms₂ a k name round hk hatree key hatf hsecs hkey htf₁ htf₂
+    N₁ N₂ ops₁ ops₂ H₁ H₂ hms₁ hms₂ hok₁ hok₂ hops₁ hops₂ hshOps hshMs hsame hraw hr₁ hr₂ hreg₁ hreg₂).1
+
+/-- the plain Hexital (`cfg = {}`), the case named in the doc comment of `presence_FULL` -/
+theorem presence_late_tf_plain (t : Int) (ht : 0 < t)
+    (tf₁ tf₂ : Option String) (init : List (Candle F)) (ms₁ ms₂ : List (Member F))
+    (a : Member F) (k : Kind F) (name : String) (round : Nat) (hk : CoveredTreeX name k)
+    (hatree : a.tree = mkTop k name round) (key : String) (hatf : a.tfName = some key) (hsecs : a.tfSecs = some t)
+    (hkey : key ≠ defaultKey) (htf₁ : tf₁ ≠ some key) (htf₂ : tf₂ ≠ some key)
+    (N₁ N₂ : List String) (ops₁ ops₂ : List (TwinOp F)) (H₁ H₂ : Hexital F)
+    (hms₁ : ∀ m, m ∈ Hexital.dedupe ms₁ → m = a ∨ (m.tree.name ≠ a.tree.name ∧ ∀ k, k ∈ m.tree.allNames → k ∈ N₁))
+    (hms₂ : ∀ m, m ∈ Hexital.dedupe ms₂ → m = a ∨ (m.tree.name ≠ a.tree.name ∧ ∀ k, k ∈ m.tree.allNames → k ∈ N₂))
+    (hok₁ : TreeOK N₁ a.tree) (hok₂ : TreeOK N₂ a.tree)
+    (hops₁ : ∀ op, op ∈ ops₁ → op.LateOK N₁ a) (hops₂ : ∀ op, op ∈ ops₂ → op.LateOK N₂ a)
+    (hshOps : ∀ op, op ∈ ops₁ ++ ops₂ → op.ShareOK a)
+    (hshMs : ∀ m, m ∈ ms₁ ++ ms₂ → m.tfName = a.tfName → m.tfSecs = a.tfSecs)
+    (hsame : (TwinOp.chunks ops₁).flatten = (TwinOp.chunks ops₂).flatten)
+    (hraw : RawTfHA (init ++ (TwinOp.chunks ops₁).flatten))
+    (hr₁ : runHexital {} tf₁ init ms₁ (ops₁ ++ [.calculate none]) = .ok H₁)
+    (hr₂ : runHexital {} tf₂ init ms₂ (ops₂ ++ [.calculate none]) = .ok H₂)
+    (hreg₁ : ∃ hi, dlookup a.tree.name H₁.indicators = some hi)
+    (hreg₂ : ∃ hi, dlookup a.tree.name H₂.indicators = some hi) :
+    ∀ nm, (splitDot nm).headD "" = a.tree.name → readOK N₁ nm = true → readOK N₂ nm = true →
+      H₁.readingAsList nm = H₂.readingAsList nm :=
+  presence_late_tf_covered false false t ht tf₁ tf₂ init ms₁ ms₂ a k name round hk hatree key hatf hsecs hkey htf₁ htf₂
+    N₁ N₂ ops₁ ops₂ H₁ H₂ hms₁ hms₂ hok₁ hok₂ hops₁ hops₂ hshOps hshMs hsame hraw hr₁ hr₂ hreg₁ hreg₂
+
+/-- **Heikin-Ashi Hexitals, `a` WITHOUT own timeframe – PROVED** (an instance of `presence_late`: the Heikin-Ashi
+managers have incremental specs): any Hexital-level timeframe or none, gap filling on or off, every shipped class -/
+theorem presence_late_ha_covered (tfs : Option Int) (htfs : ∀ t, tfs = some t → 0 < t) (fill : Bool)
+    (tf₁ tf₂ : Option String) (init : List (Candle F)) (ms₁ ms₂ : List (Member F))
+    (a : Member F) (k : Kind F) (name : String) (round : Nat) (hk : CoveredTreeX name k)
+    (hatree : a.tree = mkTop k name round) (hatf : a.tfName = none)
+    (N₁ N₂ : List String) (ops₁ ops₂ : List (TwinOp F)) (H₁ H₂ : Hexital F)
+    (hms₁ : ∀ m, m ∈ Hexital.dedupe ms₁ → m = a ∨ (m.tree.name ≠ a.tree.name ∧ ∀ k, k ∈ m.tree.allNames → k ∈ N₁))
+    (hms₂ : ∀ m, m ∈ Hexital.dedupe ms₂ → m = a ∨ (m.tree.name ≠ a.tree.name ∧ ∀ k, k ∈ m.tree.allNames → k ∈ N₂))
+    (hok₁ : TreeOK N₁ a.tree) (hok₂ : TreeOK N₂ a.tree)
+    (hops₁ : ∀ op, op ∈ ops₁ → op.LateOK N₁ a) (hops₂ : ∀ op, op ∈ ops₂ → op.LateOK N₂ a)
+    (hsame : (TwinOp.chunks ops₁).flatten = (TwinOp.chunks ops₂).flatten)
+    (hraw : RawTfHA (init ++ (TwinOp.chunks ops₁).flatten))
+    (hr₁ : runHexital { tf := tfs, fill := fill, ha := true } tf₁ init ms₁ (ops₁ ++ [.calculate none]) = .ok H₁)
+    (hr₂ : runHexital { tf := tfs, fill := fill, ha := true } tf₂ init ms₂ (ops₂ ++ [.calculate none]) = .ok H₂)
+    (hreg₁ : ∃ hi, dlookup a.tree.name H₁.indicators = some hi)
+    (hreg₂ : ∃ hi, dlookup a.tree.name H₂.indicators = some hi) :
+    ∀ nm, (splitDot nm).headD "" = a.tree.name → readOK N₁ nm = true → readOK N₂ nm = true →
+      H₁.readingAsList nm = H₂.readingAsList nm :=
+  (Hex.presence_late_ha_covered tfs htfs fill tf₁ tf₂ init ms₁ ms₂ a k name round hk hatree hatf N₁ N₂ ops₁ ops₂ H₁ H₂
+    hms₁ hms₂ hok₁ hok₂ hops₁ hops₂ hsame hraw hr₁ hr₂ hreg₁ hreg₂).1
+
+/-- non-vacuity (toy carrier `Int`): `SMA_2_T2` (120 s) present from the start in world 1, added after two appends in
+world 2 – where `RSI_2_T2`, sharing the timeframe, creates the `T2` manager first and is removed again –, plain and
+Heikin-Ashi; and `RSI_2` without timeframe on Heikin-Ashi Hexitals -/
+example := @Hex.tf_example
+example := @Hex.ha_example
 
 end Hex.C13
